@@ -57,6 +57,8 @@ func verifierRules(r *rep.Report, p *load.Program, rl *roles.Roles, fl *flags) {
 	// the supplied encodings are hashed as given
 	ruleUsesOnly(r, p, "H-hashed-as-given", "verifyCore", paths, "sig[0:32]", isRegion("P2", 0, 32),
 		map[string]bool{"hash.Write": true, "hash.Sum": true, "ge25519.UnpackVartime": true, "smallOrder": true}, throughOps)
+	// "decodes to a curve point": the decoder's own rejection structure (one rejection: neither root works)
+	ruleDecode(r, p)
 }
 
 func checkC01(c *Ctx, r *rep.Report) {
@@ -92,6 +94,9 @@ func checkC05(c *Ctx, r *rep.Report) {
 	ruleSmallOrder(r, p, rl)
 	ruleZipFlagUses(r, p, rl)
 	ruleBatchAll(c, r, p, rl, fl)
+	ruleScMinExact(r, p, rl)
+	// S ranges over all of [0, L) here (a small-order key makes R = [S]B valid for any S): the scalar layer must be exact on the top bits too
+	scalarLayer(c, r)
 }
 
 func checkC07(c *Ctx, r *rep.Report) {
